@@ -24,6 +24,8 @@ pub enum Ev {
     Hard(u8),
     /// end of file now, even if data remains
     Eof,
+    /// `ErrorKind::Interrupted` for the next n calls in a row (long bursts: counters of retries)
+    Burst(u32),
     /// re-entrancy: while producing this read, the reader itself hashes another (inner) stream
     /// with the same helper on the same thread, then delivers up to k bytes
     Nested(u32),
@@ -54,6 +56,8 @@ pub struct ScriptReader<'a> {
     pub nested: Option<&'a dyn Fn(u32) -> Result<(), String>>,
     pub nested_calls: u32,
     pub nested_failure: Option<String>,
+    burst_left: u32,
+    pub longest_burst: u32,
 }
 
 impl<'a> ScriptReader<'a> {
@@ -72,6 +76,8 @@ impl<'a> ScriptReader<'a> {
             nested: None,
             nested_calls: 0,
             nested_failure: None,
+            burst_left: 0,
+            longest_burst: 0,
         }
     }
     pub fn delivered(&self) -> &'a [u8] {
@@ -84,6 +90,11 @@ impl<'a> Read for ScriptReader<'a> {
         if self.ended {
             self.calls_after_end += 1;
             return Ok(0);
+        }
+        if self.burst_left > 0 {
+            self.burst_left -= 1;
+            self.interrupts += 1;
+            return Err(io::Error::new(ErrorKind::Interrupted, "verif: interrupted (retry me)"));
         }
         let ev = if self.next < self.events.len() { self.events[self.next].clone() } else { Ev::Deliver(u32::MAX) };
         self.next += 1;
@@ -101,6 +112,15 @@ impl<'a> Read for ScriptReader<'a> {
         };
         match ev {
             Ev::Nested(_) => unreachable!(),
+            Ev::Burst(n) => {
+                self.longest_burst = self.longest_burst.max(n);
+                if n == 0 {
+                    return self.read(buf);
+                }
+                self.burst_left = n - 1;
+                self.interrupts += 1;
+                Err(io::Error::new(ErrorKind::Interrupted, "verif: interrupted (retry me)"))
+            }
             Ev::Deliver(k) => {
                 let remaining = self.data.len() - self.pos;
                 if remaining == 0 || buf.is_empty() {
@@ -186,6 +206,11 @@ pub fn case_script(api: &dyn GlobalApi, va: &dyn VariantApi, s: &Script, st: &Ca
         }
         if rd.nested_calls > 0 {
             st.class("script: reader hashes another stream inside read()");
+        }
+        if rd.longest_burst >= 65_536 {
+            st.class("script: >= 65536 interruptions in a row");
+        } else if rd.longest_burst >= 256 {
+            st.class("script: >= 256 interruptions in a row");
         }
         if rd.calls_after_end > 0 {
             // not demanded by the property (the result is judged below): recorded only
@@ -274,6 +299,7 @@ fn script_strategy(v: vmodel::Variant, big_weight: u32) -> impl Strategy<Value =
         1 => (0u8..6).prop_map(Ev::Hard),
         1 => Just(Ev::Eof),
         1 => prop_oneof![4 => 1u32..=5000, 1 => Just(1u32 << 20)].prop_map(Ev::Nested),
+        1 => prop_oneof![3 => 2u32..300, 1 => Just(255u32), 1 => Just(256), 1 => Just(257), 1 => Just(65_535), 1 => Just(65_536), 1 => Just(65_537), 1 => Just(70_000), 1 => Just(131_073)].prop_map(Ev::Burst),
     ];
     (data, vec(ev, 0..14)).prop_map(|(data, events)| Script { data, events })
 }
